@@ -292,6 +292,51 @@ def check(run):
                                               f"coordinate (1 - the others) is never bounded, so points beyond the opposite edge count as inside", key=key_of("C12-S2", fb.qualname))
     run.floor("barycentric range tests", n_s2, 2)
 
+    # ------------------------------------------------------------------ S3 duplicate hits are merged per ray, never across rays
+    run.rule("S3", "where hits are de-duplicated (on-edge hits reported once per triangle), the uniqueness key contains the ray index: two rays of one batch that meet the surface "
+                   "at the same point each keep their hit")
+    n_s3 = 0
+    for fb in ix.all_functions:
+        if not fb.module.name.startswith("trimesh.ray."):
+            continue
+        uq = [c_ for c_ in ast.walk(fb.node) if isinstance(c_, ast.Call) and ast.unparse(c_.func).split(".")[-1] in ("unique_rows", "unique")]
+        if not uq:
+            continue
+        Vu = Values(ix, fb)
+        for r_ in Vu.returns():
+            if not (isinstance(r_.value, ast.Tuple) and len(r_.value.elts) >= 2):
+                continue
+            elts = [Vu.value(e_, r_) for e_ in r_.value.elts]
+
+            def _sel(node_):
+                """the `A[U]` alternative of a returned value (the value may also come back unselected on other paths)"""
+                n_ = Vu.dag.node(node_) if isinstance(node_, ast.Name) else node_
+                alts_ = list(n_.args) if isinstance(n_, ast.Call) and isinstance(n_.func, ast.Name) and n_.func.id == "PHI" else [node_]
+                for a_ in alts_:
+                    m_ = Vu.match("_e_A[_e_U]", a_)
+                    if m_ is not None and (Vu.match("trimesh.grouping.unique_rows(data=_e_KEY)[0]", m_["_e_U"]) is not None
+                                           or Vu.match("trimesh.grouping.unique_rows(data=_e_KEY, digits=_e_d)[0]", m_["_e_U"]) is not None):
+                        return m_
+                return None
+
+            sel = [_sel(e_) for e_ in elts]
+            if not all(sel) or len({x["_e_U"] for x in sel}) != 1:
+                continue
+            U = sel[0]["_e_U"]
+            um = Vu.match("trimesh.grouping.unique_rows(data=_e_KEY)[0]", U) or Vu.match("trimesh.grouping.unique_rows(data=_e_KEY, digits=_e_d)[0]", U)
+            if um is None:
+                continue
+            n_s3 += 1
+            ray = sel[1]["_e_A"]  # (index_tri, index_ray, locations): the second array is the ray index
+            ok = Vu.dag.contains(um["_e_KEY"], ray) or um["_e_KEY"] == ray
+            run.instance("S3", fb.where, f"{fb.qualname}: hits de-duplicated on `{Vu.text(um['_e_KEY'], 2, 70)}`; contains the ray index: {ok}", ok)
+            if not ok:
+                run.violation("S3", fb.where, f"`{fb.qualname}` removes duplicate hits by `{Vu.text(um['_e_KEY'], 2, 70)}` alone: hits of DIFFERENT rays at the same location are merged, "
+                                              f"so all but one of those rays lose a triangle they cross", key=key_of("C12-S3", fb.qualname))
+    if n_s3 == 0:
+        run.instance("S3", "trimesh/ray", "no hit de-duplication of the recognised form (`A[unique_rows(KEY)[0]]` for every returned array) - NOT decided", True, nontrivial=False)
+        run.assume("ray modules: the de-duplication of hits is not in a recognised form; that its key contains the ray index is not decided")
+
     # ------------------------------------------------------------------ P pruning boxes
     f = ix.func("trimesh.ray.ray_triangle:ray_bounds")
     # one canonical term for the returned box (sa/provenance.py, ssa mode: `x += e` and `x[i] = e` are definitions, locals
